@@ -14,6 +14,7 @@ import (
 
 	"github.com/cilium/statedb/index"
 	"github.com/cilium/statedb/internal"
+	"github.com/cilium/statedb/internal/simhook"
 )
 
 // writeTxnHandle wraps the state. We need a separate heap allocated object wrapping
@@ -323,6 +324,7 @@ func (handle *writeTxnHandle) Abort() {
 		return
 	}
 
+	simhook.Yield("abort.begin")
 	txn := handle.writeTxnState
 	for _, table := range txn.tableEntries {
 		if table.locked {
@@ -369,6 +371,7 @@ func (handle *writeTxnHandle) Commit() ReadTxn {
 	txn.duration.Store(uint64(time.Since(txn.acquiredAt)))
 
 	db := txn.db
+	simhook.Yield("commit.begin")
 
 	// Commit each individual changed index to each table.
 	// We don't notify yet (CommitOnly) as the root needs to be updated
@@ -392,11 +395,13 @@ func (handle *writeTxnHandle) Commit() ReadTxn {
 		db.metrics.GraveyardObjectCount(name, table.numDeletedObjects())
 		db.metrics.ObjectCount(name, table.numObjects())
 		db.metrics.Revision(name, table.revision)
+		simhook.Yield("commit.tableCommitted")
 	}
 
 	// Acquire the lock on the root tree to sequence the updates to it. We can acquire
 	// it after we've built up the new table entries above, since changes to those were
 	// protected by each table lock (that we're holding here).
+	simhook.Acquire(&db.mu, "commit.rootLock")
 	db.mu.Lock()
 
 	// Since the root may have changed since the pointer was last read in WriteTxn(),
@@ -426,19 +431,24 @@ func (handle *writeTxnHandle) Commit() ReadTxn {
 		}
 		table.meta.released()
 		table.locked = false
+		simhook.Yield("commit.tableMerged")
 	}
 	txn.tableEntries = nil
 
 	// Commit the transaction to build the new root tree and then
 	// atomically store it.
+	simhook.Yield("commit.preStore")
 	db.root.Store(&root)
+	simhook.Yield("commit.postStore")
 	db.mu.Unlock()
+	simhook.Release(&db.mu, "commit.rootUnlock")
 
 	// Now that new root is committed, we can notify readers by closing the watch channels of
 	// mutated radix tree nodes in all changed indexes and on the root itself.
 	for _, txn := range txnToNotify {
 		txn.notify()
 	}
+	simhook.Yield("commit.notified")
 
 	// With the root pointer updated, we can now release the tables for the next write transaction.
 	txn.smus.Unlock()
@@ -447,6 +457,7 @@ func (handle *writeTxnHandle) Commit() ReadTxn {
 	for _, ch := range initChansToClose {
 		close(ch)
 	}
+	simhook.Yield("commit.initClosed")
 
 	txn.db.metrics.WriteTxnDuration(
 		txn.handle,
